@@ -25,13 +25,17 @@ Section Wf.
     (r_order r <= tord g)%nat /\ pow2 (r_order r) <= frames (low u) /\
     exists len, class_locals u (r_class r) = Some len /\ (forall l, r_local r = Some l -> l < len).
   Definition frame_ok (u : upper) (f : N) (o : nat) : Prop := f mod pow2 o = 0 /\ f + pow2 o <= frames (low u).
+  (* change_tree within scope: Offline or a pure class change (an Online re-counts the tree non-atomically, which
+     cannot be reconciled with frames in transit), onto a configured class *)
+  Definition change_ok (u : upper) (ch : tree_change) : Prop :=
+    c_op ch <> Some OpOnline /\ (forall c, c_class ch = Some c -> class_locals u c <> None).
   Definition call_wf (u : upper) (c : ucall) : Prop :=
     match c with
     | UGet None r => req_ok u r
     | UGet (Some f) r => req_ok u r /\ frame_ok u f (r_order r)
     | UPut f r => req_ok u r /\ frame_ok u f (r_order r)
     | UDrain => True
-    | UChange _ _ => False
+    | UChange _ ch => change_ok u ch
     end.
 
   (* ----- primitives ----- *)
@@ -52,11 +56,12 @@ Section Wf.
     match a with
     | AcRos o cl _ => ros_ok u c o cl
     | AcSteal cl o => exists r, c = UGet None r /\ o = r_order r /\ cl = r_class r
-    | AcChange _ _ _ => False
+    | AcChange mc mf ch => exists m, c = UChange m ch /\ mc = m_class m /\ mf = m_free m
     end.
+  Definition acc_get (a : acc) : Prop := match a with AcChange _ _ _ => False | _ => True end.
   Definition cands_ok (u : upper) (l : list (N * N)) : Prop := Forall (fun p => snd p < ntrees u) l.
   Definition sb_wf (u : upper) (c : ucall) (sb : sbst) : Prop :=
-    acc_wf u c (sb_acc sb) /\ cands_ok u (sb_best sb) /\ ntrees u <> 0.
+    (acc_wf u c (sb_acc sb) /\ acc_get (sb_acc sb)) /\ cands_ok u (sb_best sb) /\ ntrees u <> 0.
 
   Definition top_wf (u : upper) (c : ucall) (p : prim) (f : kframe) : Prop :=
     match f with
@@ -115,6 +120,7 @@ Section Wf.
         exists local, sprim p (r_class r) local (SPut (f / TF) (pow2 (r_order r))) /\ slot_ok u (r_class r) local = true
     | KDr1 cc j => c = UDrain /\ p = PSW cc j slot_none /\ slot_ok u cc j = true
     | KDr2 cc _ => c = UDrain /\ exists t a, tprim u p t (FUnres a cc) /\ t < ntrees u
+    | KCh => exists i m ch, c = UChange m ch /\ tprim u p i (FChange (m_class m) (m_free m) ch) /\ i < ntrees u
     | _ => False
     end.
 
@@ -127,13 +133,14 @@ Section Wf.
     | KSR1 o cl _ _ => ros_ok u c o cl
     | KSBA sb => sb_wf u c sb
     | KSBT sb cands => sb_wf u c sb /\ cands_ok u cands
+    | KSe a _ _ => acc_wf u c a /\ (exists mc mf ch, a = AcChange mc mf ch) /\ ntrees u <> 0
     | _ => False
     end.
 
   (* nesting level of the function a frame belongs to *)
   Definition lvl (f : kframe) : nat :=
     match f with
-    | KGet1 _ _ | KGet2 _ _ | KOom1 _ _ | KAt1 _ _ | KPut1 _ _ | KPut2 _ _ | KDr1 _ _ | KDr2 _ _ | KCh => 5
+    | KGet1 _ _ | KGet2 _ _ | KOom1 _ _ | KAt1 _ _ | KPut1 _ _ | KPut2 _ _ | KDr1 _ _ | KDr2 _ _ => 5
     | KSR1 _ _ _ _ => 4
     | KSBL _ | KSBA _ | KSBT _ _ | KSe _ _ _ => 3
     | _ => 2
